@@ -218,7 +218,8 @@ def check_ctor_forwarders(run, cx, cfg):
         if b['kind'] == 'Closure' or b['path'] == new:
             continue
         try:
-            ps = returning(cx.paths(b['path'], stop=[new], inline=False))
+            # (inlining: a constructor may reach Detector::new through another constructor, e.g. peak_from_rectifier)
+            ps = returning(cx.paths(b['path'], stop=[new]))
         except Exception:
             continue
         if not any(rp(e) == new for p in ps for _, e in call_events(p)):
@@ -243,8 +244,10 @@ def check_ctor_forwarders(run, cx, cfg):
             if kind is not None:
                 src = args[0]
                 made = [e for k, e in call_events(p) if ('ret', k) == src]
-                if not made or not (rp(made[0]) or '').endswith('::' + kind):
-                    bad = 'must build its detector with Peak::%s()' % kind
+                by_ctor = bool(made) and (rp(made[0]) or '').endswith('::' + kind)
+                by_value = any(t[0] == 'agg' and t[1][0] == 'adt' and t[1][1] == 'dasp_peak::' + RECT_OF[kind] for t in subterms(src))
+                if not (by_ctor or by_value):
+                    bad = 'must build its detector with the %s rectifier' % RECT_OF[kind]
         run.check(bad is None, 'envelope.ctor-forward', b['path'], cfg, bad or '', where=where(b))
     run.floor('envelope.ctor-forward', 'convenience constructors calling Detector::new (%s)' % cfg, n, 5 if cfg != 'nostd' else 5)
     # Peak::<kind>() constructors wrap the rectifier of their own kind
